@@ -89,6 +89,11 @@ type API interface {
 	Stats() (int64, int64, int)
 	// Table returns table statistics when the container exposes them.
 	Table() TableStats
+	// Release drops the adapter's reference to the container. The evicted callback the adapter
+	// installs references the adapter (to re-enter the cache); together with the cache's own
+	// reference to the callback that is a cycle through an object with a finalizer, which the Go
+	// runtime never collects — the harness must break it when a case is over.
+	Release()
 }
 
 const maxThreads = 8
@@ -212,6 +217,7 @@ func toInt(v interface{}) int {
 }
 
 func (a *mapAd) Spec() Spec { return a.spec }
+func (a *mapAd) Release()   {}
 func (a *mapAd) Table() TableStats {
 	if a.raw == nil {
 		return TableStats{}
@@ -312,6 +318,7 @@ type mapOfAd[K comparable] struct {
 }
 
 func (a *mapOfAd[K]) Spec() Spec { return a.spec }
+func (a *mapOfAd[K]) Release()   {}
 func (a *mapOfAd[K]) Table() TableStats {
 	if a.raw == nil {
 		return TableStats{}
@@ -436,6 +443,7 @@ type cacheAd struct {
 }
 
 func (a *cacheAd) Spec() Spec                { return a.spec }
+func (a *cacheAd) Release()                  { a.c = nil }
 func (a *cacheAd) Table() TableStats          { return TableStats{} }
 func (a *cacheAd) Stats() (int64, int64, int) { return -1, -1, -1 }
 
@@ -446,12 +454,12 @@ func (a *cacheAd) mkCallback() cache.EvictedCallback {
 		vi := toInt(v)
 		if s := ss.sinks[tid()]; s != nil {
 			s.Ev = append(s.Ev, model.KV{K: ki, V: vi})
-			if a.spec.Reenter == 1 || a.spec.Reenter == 3 {
+			if (a.spec.Reenter == 1 || a.spec.Reenter == 3) && a.c != nil {
 				if g, ok := a.c.Get(k); ok && toInt(g) == vi {
 					s.Note += fmt.Sprintf("callback for (k%d,%d): value still retrievable; ", ki, vi)
 				}
 			}
-			if a.spec.Reenter >= 2 {
+			if a.spec.Reenter >= 2 && a.c != nil {
 				_ = a.c.Count()
 			}
 		} else {
@@ -621,6 +629,7 @@ type cacheOfAd[K comparable] struct {
 }
 
 func (a *cacheOfAd[K]) Spec() Spec                { return a.spec }
+func (a *cacheOfAd[K]) Release()                  { a.c = nil }
 func (a *cacheOfAd[K]) Table() TableStats          { return TableStats{} }
 func (a *cacheOfAd[K]) Stats() (int64, int64, int) { return -1, -1, -1 }
 
@@ -630,12 +639,12 @@ func (a *cacheOfAd[K]) mkCallback() cache.EvictedCallbackOf[K, int] {
 		ki := a.kc.from(k)
 		if s := ss.sinks[tid()]; s != nil {
 			s.Ev = append(s.Ev, model.KV{K: ki, V: v})
-			if a.spec.Reenter == 1 || a.spec.Reenter == 3 {
+			if (a.spec.Reenter == 1 || a.spec.Reenter == 3) && a.c != nil {
 				if g, ok := a.c.Get(k); ok && g == v {
 					s.Note += fmt.Sprintf("callback for (k%d,%d): value still retrievable; ", ki, v)
 				}
 			}
-			if a.spec.Reenter >= 2 {
+			if a.spec.Reenter >= 2 && a.c != nil {
 				_ = a.c.Count()
 			}
 		} else {
